@@ -19,7 +19,7 @@ RULE = ("synthetic trajectories of length 0..40 with non-decreasing distance and
         "between values / beyond, distances in any unit; every look-up function is compared with a sequential scan; "
         "a case = (trajectory, function, query); non-trivial when the trajectory has >= 2 rows and the query lies "
         "inside or on the recorded span")
-MUST_OBSERVE = ["lookups", "empty_trajectories", "single_row_trajectories", "trajectories_with_repeats",
+MUST_OBSERVE = ["apex_checked_on_inclined_rows", "lookups", "empty_trajectories", "single_row_trajectories", "trajectories_with_repeats",
                 "sentinel_minus1", "sentinel_nan", "sentinel_arith", "nearest_ties", "apex_checked", "real_trajectories",
                 "negative_rejected", "trajectories_edited_in_place"]
 ASSUMPTIONS = ["the scan applies the same comparison (row value in the query's unit >= query) row by row",
@@ -31,10 +31,10 @@ def budget(tier):
     return {"shards": 14, "deadline_s": 45 if tier == "quick" else 600}
 
 
-def mk_rows(spec):
+def mk_rows(spec, look_rad=0.0):
     rows = []
     for t, x, y, v, flag in spec:
-        rows.append(create_trajectory_row(t, Vector(x, y, 0.0), Vector(v, 0.0, 0.0), v, 1116.0, 0.0, 0.0,
+        rows.append(create_trajectory_row(t, Vector(x, y, 0.0), Vector(v, 0.0, 0.0), v, 1116.0, 0.0, look_rad,
                                           1.0, 0.0, 150.0, flag))
     return rows
 
@@ -156,8 +156,11 @@ def check_traj(ctx, rows, case, extra=True, hit=None):
 
 def check_apex(ctx, case):
     heights = case["heights"]
-    rows = mk_rows([(i * 0.01, i * 10.0, h, 900.0, 8) for i, h in enumerate(heights)])
+    # the rows may belong to an inclined shot: the apex is the highest row all the same (height, not height over the sight line)
+    rows = mk_rows([(i * 0.01, i * 10.0, h, 900.0, 8) for i, h in enumerate(heights)], math.radians(case.get("look_deg") or 0.0))
     ctx.count("apex_checked")
+    if case.get("look_deg"):
+        ctx.count("apex_checked_on_inclined_rows")
     c = dict(case)
     ctx.case(c, nontrivial=len(heights) >= 3)
     got = call(lambda: helpers.find_index_of_apex_in_points(rows))
@@ -274,7 +277,7 @@ def run(ctx):
                 hs.append(round(h, 4))
             if rng.random() < 0.1:
                 hs = []
-            check_apex(ctx, {"kind": "apex", "heights": hs})
+            check_apex(ctx, {"kind": "apex", "heights": hs, "look_deg": rng.choice([0.0, 0.0, round(rng.uniform(-30, 30), 1)])})
         else:
             s = gen.shot(rng, custom=0.0, cant=False, wind_n=0)
             s["rel_deg"] = rng.choice([0.2, 1.0, 5.0])
